@@ -44,6 +44,8 @@ def trimS (l : List Nat) : List Nat := ((l.dropWhile isSp).reverse.dropWhile isS
 
 /-- Engine.setPrefix with an empty PREFIX -/
 def setPrefix (l : Line) (cpos : Int) : G (List Nat) := do
+  -- at the beginning of the line there is no word before the cursor
+  if cpos = 0 then return []
   let c := if cpos - 1 < 0 then 0 else cpos - 1
   let (b, _) ← selectBlankWord l c
   let (b, c) := if b > c then (c, b) else (b, c)
